@@ -82,7 +82,7 @@ pub fn start_watchdog(limit_s: u64, prop: String) {
                 let desc = s.desc.lock().map(|g| g.clone()).unwrap_or_default();
                 if prop == "C06" && !desc.is_empty() {
                     // "never blocks indefinitely" is C06's own clause
-                    let dir = format!("{}/replays/C06", crate::report::VERIF);
+                    let dir = format!("{}/replays/C06", crate::report::verif_root());
                     let _ = std::fs::create_dir_all(&dir);
                     let file = format!("{dir}/hang_{:x}.json", crate::report::h128(&desc.bytes().map(|b| b as u64).collect::<Vec<_>>()) as u64);
                     let _ = std::fs::write(&file, format!("{{\"property\": \"C06\", \"key\": \"C06|hang\", \"what\": \"a planner call did not return within {limit_s} s of wall time under the logical clock\", \"replay\": {desc}}}"));
